@@ -86,6 +86,7 @@ def registry(files, repo):
     if n_add != len(structs) - len(re.findall(r"insert_struct_rule!\(", body)):
         raise RuntimeError("lint_group.rs: an out.add(..) of unknown shape")
     n_pat = len(patterns)
+    pat_names = list(patterns)
     for mod in merged:
         mcode = files.get(mod + ".rs")
         if mcode is None:
@@ -110,13 +111,16 @@ def registry(files, repo):
             js = re.findall(r'include_str!\(\s*"([^"]+\.json)"\s*\)', mcode)
             if rows and not js:
                 n_pat += len(rows)
+                pat_names += rows
             elif js and not rows and len(padds) == 1:
                 import json
                 for j in js:
-                    n_pat += len(json.load(open(os.path.join(repo, LINT_DIR, os.path.dirname(mod + ".rs"), j), encoding="utf-8")))
+                    keys = list(json.load(open(os.path.join(repo, LINT_DIR, os.path.dirname(mod + ".rs"), j), encoding="utf-8")))
+                    n_pat += len(keys)
+                    pat_names += keys
             else:
                 raise RuntimeError("merged group %s: unknown shape of a pattern-rule group" % mod)
-    return structs, n_pat
+    return structs, n_pat, len(set(pat_names) | set(n for n, _ in structs))
 
 
 def find_impl(files, ty):
@@ -214,7 +218,7 @@ def post_processing(body):
 
 def generate(repo):
     files = rule_files(repo)
-    structs, n_pat = registry(files, repo)
+    structs, n_pat, n_keys = registry(files, repo)
     # the blanket impl every PatternLinter gets
     pl = files["pattern_linter.rs"]
     m = re.search(r"impl<L>\s+Linter\s+for\s+L\s+where\s+L:\s*PatternLinter,?\s*\{", pl)
@@ -260,5 +264,7 @@ def generate(repo):
                           for n, t, f, s, w, subs in rows))
     out.append("].")
     out += ["", "(* pattern rules (add_pattern_linter): they run per chunk through the chunk cache *)",
-            "Definition pattern_rule_count : nat := %d." % n_pat]
+            "Definition pattern_rule_count : nat := %d." % n_pat,
+            "(* distinct rule names of the registry (LintGroup::iter_keys, duplicates removed) *)",
+            "Definition registry_key_count : nat := %d." % n_keys]
     return "\n".join(out) + "\n"
